@@ -8,7 +8,7 @@ EXPL = "Exploration: verdict is 'held on the executions observed'. "
 CLAIMED = {
  "C01": ("statistical runtime monitor: thousands of independent item sets per (family, configuration, path, cardinality) cell; deterministic clauses on every observation, bias / spread / coverage per cell by hypothesis tests with stated tolerances",
          EXPL + "HLL (HIP, coupon regime, composite estimator of unions), CPC (HIP, ICON of unions, CpcWrapper) and theta (exact, estimation, sampling p<1) observed at n = 0 and ~33 checkpoints up to 65536 on streamed, round-tripped and merged sketches. Unbiasedness and coverage are statements about the distribution over inputs; only a population of executions can refute them.",
-         "Tolerances are part of the claim: bias 0.15 RSE + 6 sd/sqrt(T), spread 1.25 RSE, coverage nominal - (0.04, 0.025, 0.006) tested by an exact binomial tail at 1e-9; effects below them are invisible. T = 400 per cell in quick, 6000 in thorough.",
+         "Tolerances are part of the claim: bias 0.08 RSE (0.15 RSE for the CPC ICON estimator, whose published polynomial is biased by ~0.09 RSE at lg_k 4) + 6 max(sd, RSE)/sqrt(T), spread 1.25 RSE, coverage nominal - (0.04, 0.025, 0.006) tested by an exact binomial tail at 1e-9; effects below them are invisible. T = 400 per cell in quick and 6000 in thorough for streams to 64k items; sketches with lg_k <= 8 additionally run 'dense' cells (streams to 128 k items, at least 4096) with up to 32 x more trials.",
          "DESIGN.md 5 (C01)"),
  "C11": ("runtime round-trip monitor: deserialize(serialize(s)) compared with s accessor by accessor, hooked state by state, byte by byte, then under identical further updates and merges",
          EXPL + "Generated states of all seven families (every HLL mode/type incl. exceptions, cur_min > 0 and out-of-order union results; compact theta incl. synthetic entry sets of every delta width 1..63 and length 0..=4100; every CPC flavor and many offsets; Bloom; Count-Min in 8 counter types; Frequent Items i64/u64/String incl. purged-empty; t-digest).",
